@@ -382,10 +382,39 @@ func (c *Cmd) Wait() error {
 	WaitProc(c.proc)
 	simrt.Syscall("wait", c.Path, 0)
 	c.ProcessState = stateOf(c.proc)
-	c.copiers.Wait()
+	waitDelayExpired := false
+	if c.WaitDelay > 0 {
+		// as os/exec: once the process has exited, the output copiers get WaitDelay to finish; after that the
+		// parent's ends of the pipes are closed under them and Wait returns ErrWaitDelay
+		done := make(chan struct{})
+		simrt.Go(func() {
+			c.copiers.Wait()
+			close(done)
+		})
+		t := time.NewTimer(c.WaitDelay)
+		simrt.Yield()
+		select {
+		case <-done:
+			simrt.Woke()
+			t.Stop()
+		case <-t.C:
+			simrt.Woke()
+			waitDelayExpired = true
+			for _, f := range c.parentFD {
+				_ = f.Close()
+			}
+			c.copiers.Wait()
+		case <-simrt.Dead():
+			simrt.Die()
+		}
+	} else {
+		c.copiers.Wait()
+	}
 	var err error
 	if !c.ProcessState.Success() {
 		err = &ExitError{ProcessState: c.ProcessState}
+	} else if waitDelayExpired {
+		err = ErrWaitDelay
 	} else if c.copyErr != nil {
 		err = c.copyErr
 	}
